@@ -282,6 +282,42 @@ where
             })
             .0;
             emit(acc, "unsized_iterator", it, &order);
+            // iterators whose size hint is only an upper bound (filter), a lower bound (chain with an unbounded tail cut
+            // off by take_while) or exact but composed (chain of two slices): the elements written are the ones yielded
+            {
+                let kept: Vec<E> = xs.iter().enumerate().filter(|(i, _)| i % 2 == 0).map(|(_, x)| x.clone()).collect();
+                let kept_order = Val::Seq(kept.iter().map(|x| x.to_val()).collect());
+                let it = monitored(None, || {
+                    let mut sc = SerializationContext::new(Vec::new());
+                    let mut iter = xs.iter().enumerate().filter(|(i, _)| i % 2 == 0).map(|(_, x)| x);
+                    serialize_iterator(&mut iter, &mut sc).map_err(|e| classify(&e))?;
+                    Ok(sc.into_output())
+                })
+                .0;
+                emit(acc, "filtering_iterator", it, &kept_order);
+                let cut = xs.len() / 2;
+                let it = monitored(None, || {
+                    let mut sc = SerializationContext::new(Vec::new());
+                    let mut n = 0usize;
+                    let mut iter = xs.iter().take_while(|_| {
+                        n += 1;
+                        n <= cut
+                    });
+                    serialize_iterator(&mut iter, &mut sc).map_err(|e| classify(&e))?;
+                    Ok(sc.into_output())
+                })
+                .0;
+                let head_order = Val::Seq(xs[..cut].iter().map(|x| x.to_val()).collect());
+                emit(acc, "take_while_iterator", it, &head_order);
+                let it = monitored(None, || {
+                    let mut sc = SerializationContext::new(Vec::new());
+                    let mut iter = xs[..cut].iter().chain(xs[cut..].iter());
+                    serialize_iterator(&mut iter, &mut sc).map_err(|e| classify(&e))?;
+                    Ok(sc.into_output())
+                })
+                .0;
+                emit(acc, "chained_iterator", it, &order);
+            }
             // the reference encoder's unknown-length form (what the Scala implementation writes for lazy collections)
             if let Some(b) = unknown_form_bytes(&ty, &items) {
                 emit(acc, "reference_unknown_length", Call::Ok(b), &order);
